@@ -114,3 +114,23 @@ Proof.
   assert (E2 : snd (step n T (M.goal n) (reward_src rw) s a) = snd (fst (M.step n T rw (conv key s) a))) by (rewrite <- E; reflexivity).
   rewrite E2. exact (proj1 (JV.Proofs.SlidingTile_Episode.step_protocol n T rw (conv key s) a)).
 Qed.
+
+(* projections of the tie: the translated step's state / timestep are the model's nxt / ts_of *)
+Lemma src_nxt_ts n T rw (key : list Z) s a :
+  wf n (s_puzzle s) -> M.in_grid n (s_empty_tile_position s) = true -> wf n (M.goal n) ->
+  conv key (fst (step n T (M.goal n) (reward_src rw) s a)) = JV.Proofs.SlidingTile_Episode.nxt n T rw (conv key s) a
+  /\ snd (step n T (M.goal n) (reward_src rw) s a) = JV.Proofs.SlidingTile_Episode.ts_of n T rw (conv key s) a.
+Proof.
+  intros W I G. pose proof (step_src n T rw key s a W I G) as E. cbv zeta in E.
+  unfold JV.Proofs.SlidingTile_Episode.nxt, JV.Proofs.SlidingTile_Episode.ts_of. rewrite <- E. split; reflexivity.
+Qed.
+(* C05: an in-spec move whose mask entry is False leaves the board and the blank untouched; only the step counter advances *)
+Lemma src_illegal_ignored n T rw (key : list Z) s a :
+  wf n (s_puzzle s) -> M.in_grid n (s_empty_tile_position s) = true -> wf n (M.goal n) ->
+  0 <= a < 4 -> M.legal_b n (s_empty_tile_position s) a = false ->
+  conv key (fst (step n T (M.goal n) (reward_src rw) s a)) = M.mkS (s_puzzle s) (s_empty_tile_position s) (s_step_count s + 1) key
+  /\ reward (snd (step n T (M.goal n) (reward_src rw) s a)) = [if rw =? 0 then 0 else b2z (JV.Proofs.SlidingTile_Episode.solved n (conv key s))].
+Proof.
+  intros W I G Ha Hl. destruct (src_nxt_ts n T rw key s a W I G) as [E1 E2]. rewrite E1, E2.
+  destruct (JV.Proofs.SlidingTile_Episode.step_illegal n T rw (conv key s) a I Ha Hl) as (A & B & _). split; [exact A | exact B].
+Qed.
